@@ -29,6 +29,8 @@ type ZodCheckDef struct {
 // CheckParams defines parameters for attaching a validation check.
 type CheckParams struct {
 	Error string
+	// ErrorMap carries a message given as a function (dynamic error message).
+	ErrorMap *ZodErrorMap
 }
 
 // CustomParams represents parameters for custom validation checks.
